@@ -232,6 +232,39 @@ func (e *Engine) HoleBarrier() error {
 	}
 }
 
+// holeBarrierAt waits until every hole queued so far has been punched: a block of
+// a scratch file is queued behind them and polled until it has become a hole.
+func holeBarrierAt(path string) error {
+	f, err := os.OpenFile(path, os.O_RDWR|os.O_CREATE|os.O_TRUNC, 0600)
+	if err != nil {
+		return err
+	}
+	defer os.Remove(path)
+	defer f.Close()
+	buf := make([]byte, Blk)
+	for i := range buf {
+		buf[i] = 0xff
+	}
+	if _, err := f.WriteAt(buf, 0); err != nil {
+		return err
+	}
+	if err := f.Sync(); err != nil {
+		return err
+	}
+	replica.VerifSendHole(f, 0, Blk)
+	deadline := time.Now().Add(30 * time.Second)
+	for {
+		_, err := syscall.Seek(int(f.Fd()), 0, seekData)
+		if err == syscall.ENXIO {
+			return nil
+		}
+		if time.Now().After(deadline) {
+			return fmt.Errorf("hole barrier timed out")
+		}
+		time.Sleep(50 * time.Microsecond)
+	}
+}
+
 func (e *Engine) tracef(f string, a ...interface{}) {
 	e.Trace = append(e.Trace, fmt.Sprintf("#%d ", e.step)+fmt.Sprintf(f, a...))
 }
